@@ -152,15 +152,14 @@ def smooth_system():
 FIELDS = ("q", "u", "q_dot", "u_dot", "la_g", "la_gamma", "la_c", "la_N", "la_F", "P_g", "P_gamma", "P_N", "P_F")
 
 
-def schedule(h, solver="BackwardEuler", system="contact", cont=False, only_rows=False):
+def schedule(h, solver="BackwardEuler", system="contact", cont=False, only_rows=False, fp_iter=2, nsteps=2):
     import importlib
     from cardillo.solver import SolverOptions
     mon = Monitor(h)
     modname = dict(BackwardEuler="backward_euler", Rattle="rattle", Moreau="moreau", DualStormerVerlet="dual_stormer_verlet", Newton="statics")[solver]
     mod = importlib.import_module("cardillo.solver." + modname)
     instrument(mod, mon)
-    opts = SolverOptions(newton_max_iter=2, fixed_point_max_iter=2, continue_with_unconverged=cont)
-    nsteps = 2
+    opts = SolverOptions(newton_max_iter=2, fixed_point_max_iter=fp_iter, continue_with_unconverged=cont)
     dt = 0.01
     out = dict(raised=None, nt=None, rows_ok=None)
     with h.capture() as cap:
@@ -266,6 +265,12 @@ def cases(tier, seed):
             for cont in (False, True):
                 cs.append(Case(f"{solver}/{system}/cont{int(cont)}", schedule, dict(solver=solver, system=system, cont=cont), timeout=30,
                                max_paths=(256 if tier == "quick" else 2048), max_depth=64, patch=False, sentinel=False, hard=1200))
+    # three fixed-point iterations over one step: a re-solve in the middle of a fixed-point loop that then converges (the loop's own
+    # failure would otherwise always accompany two re-solves and speak for them)
+    for solver in ("BackwardEuler", "Rattle"):
+        for cont in (False, True):
+            cs.append(Case(f"{solver}/contact/cont{int(cont)}/fp3", schedule, dict(solver=solver, system="contact", cont=cont, fp_iter=3, nsteps=1), timeout=30,
+                           max_paths=(256 if tier == "quick" else 2048), max_depth=64, patch=False, sentinel=False, hard=1200))
     for which in ("plain", "momentum"):
         cs.append(Case(f"helper/fixed_point_{which}/inplace_map", helper_contract, dict(which=which, n=2, max_iter=2), timeout=60, max_paths=128, sentinel=False))
     for solver in ("ScipyIVP", "ScipyDAE"):
